@@ -55,13 +55,17 @@ let run inp obs : string option * string option =
       | None -> Some (Printf.sprintf "%s %S set by the handler did not reach the client" where (bytes_str k))
       | Some got ->
         let want = Metadata.out_vals k vs in
-        if got = want then None
+        (* a value with a line break cannot travel as it is: arriving with CR / LF replaced by spaces is the safe reading
+           (what net/http does); what matters for such values is the protected-key comparison below *)
+        let nl c = Util.int_of_n c = 10 || Util.int_of_n c = 13 in
+        let sanitized = Stdlib.List.map (Stdlib.List.map (fun c -> if nl c then Util.n_of_int 32 else c)) want in
+        if got = want || got = sanitized then None
         else if merged && where = "header" && is_prefix want got then None
         else if merged && where = "trailer" && is_prefix (Stdlib.List.rev want) (Stdlib.List.rev got) then None
         else if Metadata.is_bin (Metadata.lower k) && Stdlib.List.length got = Stdlib.List.length vs
                 && Stdlib.List.for_all2 (fun g v -> Metadata.decode_any g = Some v) got vs then None
         else Some (Printf.sprintf "%s %S arrived as [%s], handler set [%s]" where (bytes_str k)
-                     (String.concat "|" (Stdlib.List.map bytes_str got)) (String.concat "|" (Stdlib.List.map bytes_str vs))) in
+                     (String.escaped (String.concat "|" (Stdlib.List.map bytes_str got))) (String.escaped (String.concat "|" (Stdlib.List.map bytes_str vs)))) in
     let prot = Metadata.reserved_keys @ Metadata.framing_keys @ [str_bytes "grpc-status-details-bin"] in
     let forged =
       Stdlib.List.find_map (fun k ->
@@ -69,7 +73,7 @@ let run inp obs : string option * string option =
           else if get t1 k <> get t0 k then Some (Printf.sprintf "response trailer %S differs from the baseline call: handler metadata changed a protected key" (bytes_str k))
           else None) prot in
     let r1 = Stdlib.List.find_map (check_present "header" h1) hmd in
-    let r2 = if proto = "http" || proto = "twirp" then None else Stdlib.List.find_map (check_present "trailer" t1) tmd in
+    let r2 = if proto = "http" || proto = "twirp" || proto = "bodywriter" then None else Stdlib.List.find_map (check_present "trailer" t1) tmd in
     (match forged, r1, r2 with
      | Some e, _, _ | None, Some e, _ | None, None, Some e -> (Some e, None)
      | None, None, None -> (None, None))
